@@ -1,13 +1,14 @@
 CONSTANTS
-  MaxItems = 3
+  MaxItems = 5
   ChunkSize = 2
   QueryCacheMax = 1
   MaxEdits = 2
   Queries = {"", "a", "b", "ab"}
-  MaxReloads = 1
-  TailN = 0
+  MaxReloads = 0
+  TailN = 3
   BumpOnTrim = TRUE
   AllowOlder = FALSE
 SPECIFICATION Spec
-INVARIANTS NeverStale
+INVARIANTS PublishedIsFilter ShownIsFilter MergerCacheSound ChunkCacheSound Convergence SnapshotIsWindow
+PROPERTY Liveness
 CHECK_DEADLOCK FALSE
